@@ -446,6 +446,22 @@ Proof. destruct o; repeat constructor. Qed.
 Lemma nht_only_map_unreg l : nht_only (map Unreg l).
 Proof. induction l; cbn; constructor; auto. Qed.
 
+(* ---- deferral: the gate drops the FIB requests of a deferring family *)
+Lemma gate_off df p rq : memN (fst p) df = false -> gate df p rq = rq.
+Proof. unfold gate. intros ->. reflexivity. Qed.
+Lemma gate_nil df p : gate df p [] = [].
+Proof. unfold gate. destruct (memN (fst p) df); reflexivity. Qed.
+Lemma gate_on_nht df p rq : memN (fst p) df = true -> nht_only (gate df p rq).
+Proof.
+  unfold gate, nht_only. intros ->. apply Forall_forall. intros r Hr. apply filter_In in Hr.
+  destruct Hr as [_ Hr]. destruct r; cbn in *; auto; discriminate.
+Qed.
+Lemma gate_own df p q rq : Forall (own_req q) rq -> Forall (own_req q) (gate df p rq).
+Proof.
+  unfold gate. destruct (memN (fst p) df); auto. intro H. rewrite Forall_forall in *.
+  intros r Hr. apply filter_In in Hr. apply H. tauto.
+Qed.
+
 Record dstep_ok (fl fl' : flags) (p : prefix) (d : dest) (res : dest * list req) : Prop := {
   ds_own : Forall (own_req p) (snd res);
   ds_sorted : ssorted c fl (d_l d) -> ssorted c fl' (d_l (fst res));
@@ -508,13 +524,14 @@ Qed.
 
 
 (* ---- state-level invariant *)
-Record Inv' (ks : list prefix) (g : prefix -> dest) (fl : flags) (reqs : list req) : Prop := {
+Record Inv' (ks : list prefix) (g : prefix -> dest) (fl : flags) (df : list N) (reqs : list req) : Prop := {
   inv_sorted : forall p, ssorted c fl (d_l (g p));
   inv_nodup : NoDup ks;
   inv_keys : forall p, ~ In p ks -> d_l (g p) = [];
-  inv_main : forall p k valf, tracked p k valf -> kcond p k ks -> fib_replay reqs k = valf fl (g p)
+  inv_main : forall p k valf, tracked p k valf -> kcond p k ks ->
+             fib_replay reqs k = if memN (fst p) df then [] else valf fl (g p)
 }.
-Definition Inv (s : st) (reqs : list req) : Prop := Inv' (s_keys s) (s_get s) (s_fl s) reqs.
+Definition Inv (s : st) (reqs : list req) : Prop := Inv' (s_keys s) (s_get s) (s_fl s) (s_def s) reqs.
 
 Lemma fold_flat_map_main (g : prefix -> list req) p k valf ks cur :
   tracked p k valf -> kcond p k ks ->
@@ -551,15 +568,17 @@ Lemma sweep_inv s reqs fl' f :
   (forall q, d_l (s_get s q) = [] -> d_l (fst (f q (s_get s q))) = [] /\ snd (f q (s_get s q)) = []) ->
   Inv (fst (sweep s fl' f)) (reqs ++ snd (sweep s fl' f)).
 Proof.
-  intros [I1 I2 I3 I4] HD HE. unfold Inv, sweep. cbn [fst snd s_keys s_get s_fl].
+  intros [I1 I2 I3 I4] HD HE. unfold Inv, sweep. cbn [fst snd s_keys s_get s_fl s_def].
   constructor; auto.
   - intro p. apply (ds_sorted _ _ _ _ _ (HD p)). auto.
   - intros p Hp. apply HE. auto.
   - intros p k valf HT HK. unfold fib_replay. rewrite fold_fib_app. fold (fib_replay reqs k). rewrite (I4 p k valf HT HK).
-    rewrite (fold_flat_map_main (fun q => snd (f q (s_get s q))) p k valf (s_keys s)); auto.
-    2:{ intro q. apply (ds_own _ _ _ _ _ (HD q)). }
+    rewrite (fold_flat_map_main (fun q => gate (s_def s) q (snd (f q (s_get s q)))) p k valf (s_keys s)); auto.
+    2:{ intro q. apply gate_own. apply (ds_own _ _ _ _ _ (HD q)). }
     destruct (existsb (pfx_eqb p) (s_keys s)) eqn:E.
-    + apply (ds_main _ _ _ _ _ (HD p)); auto.
+    + destruct (memN (fst p) (s_def s)) eqn:M.
+      * apply nht_only_fib. apply gate_on_nht; auto.
+      * rewrite gate_off by auto. apply (ds_main _ _ _ _ _ (HD p)); auto.
     + assert (Hp : ~ In p (s_keys s)).
       { intro Hin. assert (existsb (pfx_eqb p) (s_keys s) = true); try congruence.
         apply existsb_exists. exists p. split; auto. apply pfx_eqb_refl. }
@@ -582,12 +601,12 @@ Proof.
   - cbn. intuition.
 Qed.
 
-Lemma upd_inv ks g fl reqs p0 d' rq ks' :
-  Inv' ks g fl reqs ->
+Lemma upd_inv ks g fl df reqs p0 d' rq ks' :
+  Inv' ks g fl df reqs ->
   dstep_ok fl fl p0 (g p0) (d', rq) ->
   NoDup ks' -> (forall x, In x ks -> In x ks') ->
   (~ In p0 ks' -> d_l d' = []) -> (In p0 ks' \/ rq = []) ->
-  Inv' ks' (upd p0 d' g) fl (reqs ++ rq).
+  Inv' ks' (upd p0 d' g) fl df (reqs ++ gate df p0 rq).
 Proof.
   intros [I1 I2 I3 I4] [D1 D2 D3] HN HS HE HM. cbn [fst snd] in *.
   constructor; auto.
@@ -600,9 +619,11 @@ Proof.
     { destruct HK as [HK|HK]; [left; auto|right]. intros x Hx. apply HK. auto. }
     unfold fib_replay. rewrite fold_fib_app. fold (fib_replay reqs k). rewrite (I4 p k valf HT HK').
     unfold upd. destruct (pfx_eqb p p0) eqn:E.
-    + apply pfx_eqb_eq in E. subst. auto.
-    + destruct HM as [HM| ->]; [|reflexivity].
-      apply (fold_fib_foreign k p0); auto.
+    + apply pfx_eqb_eq in E. subst. destruct (memN (fst p0) df) eqn:M.
+      * apply nht_only_fib. apply gate_on_nht; auto.
+      * rewrite gate_off by auto. auto.
+    + destruct HM as [HM| ->]; [|rewrite gate_nil; reflexivity].
+      apply (fold_fib_foreign k p0); auto. 1: apply gate_own; auto.
       intro HO. apply (tracked_inj p p0 k valf HT) in HO.
       * subst. rewrite pfx_eqb_refl in E. discriminate.
       * destruct HK as [HK|HK]; [left; auto|right]. apply HK. auto.
@@ -799,18 +820,36 @@ Proof.
   - intros q Hq. apply purge_empty; auto.
 Qed.
 
-Lemma step_inv s reqs o :
-  Inv s reqs -> Inv (fst (step c V s o)) (reqs ++ snd (step c V s o)).
+Lemma chg_some_tracked fl' p k valf d' x cur :
+  tracked p k valf -> ch_cur x = eligs (d_l d') -> ch_bc x || ch_ac x = true ->
+  fold_left (fib_step k) (distribute c V fl' p x) cur = valf fl' d'.
 Proof.
-  intro H. destruct o; cbn [step].
-  - (* Insert *)
+  intros [[-> ->]|[Hp [ND [id [imp [HI [Hid [-> ->]]]]]]]] H1 H2.
+  - rewrite distribute_fixed, H2. cbn [negb fold_left fib_step].
+    rewrite fkey_eqb_refl. destruct (is_vpn p); cbn [fold_left]; rewrite ?vrf_reqs_main;
+      unfold code_nhs; rewrite H1; auto.
+  - rewrite distribute_fixed, H2. cbn [negb fold_left fib_step].
+    assert (fkey_eqb (None, p) (Some id, local_pfx p) = false) as -> by reflexivity.
+    rewrite Hp.
+    unfold vrf_reqs.
+    rewrite (vrf_fold_present
+               (fun vr => if match ch_cur x with b :: _ => can_import (snd vr) (e_attr b) | [] => false end
+                          then nhs_of (ecmp_code c fl' (ch_cur x)) else [])
+               (c_vrfs c) id imp (local_pfx p)); auto.
+    cbn [snd]. unfold code_vrf, code_nhs. rewrite H1. destruct (eligs (d_l d')); auto.
+Qed.
+
+Lemma ins_inv s reqs peer sess p pid nh tok :
+  Inv s reqs -> Inv (fst (step_ins c V s peer sess p pid nh tok)) (reqs ++ snd (step_ins c V s peer sess p pid nh tok)).
+Proof.
+  intro H. unfold step_ins.
     destruct (apply_import c (s_pol s) peer nh) as [filtered nh'].
     pose proof (do_insert_ok (s_fl s) (s_get s p) (peer, sess) pid nh' tok (attr_of c tok) filtered
                   (match oaddr nh' with Some a => memN a (s_inv s) | None => false end)) as HO.
     pose proof (do_insert_sorted (s_fl s) (s_get s p) (peer, sess) pid nh' tok (attr_of c tok) filtered
                   (match oaddr nh' with Some a => memN a (s_inv s) | None => false end)) as HS.
     destruct (do_insert c (s_fl s) (s_get s p) (peer, sess) pid nh' tok (attr_of c tok) filtered _) as [d' ch].
-    cbn [fst snd] in *. unfold Inv. cbn [s_keys s_get s_fl].
+    cbn [fst snd] in *. unfold Inv. cbn [s_keys s_get s_fl s_def].
     destruct H as [I1 I2 I3 I4].
     apply upd_inv with (ks := s_keys s); auto.
     + constructor; auto.
@@ -824,6 +863,53 @@ Proof.
     + intros x Hx. apply add_key_in. auto.
     + intro Hn. exfalso. apply Hn. apply add_key_in. auto.
     + left. apply add_key_in. auto.
+Qed.
+
+Lemma memN_filter_neq a x l : memN x (filter (fun y => negb (y =? a)) l) = negb (x =? a) && memN x l.
+Proof.
+  unfold memN. induction l as [|y l IH]; cbn [filter existsb].
+  - rewrite andb_false_r. auto.
+  - destruct (y =? a) eqn:E; cbn [negb existsb]; rewrite IH.
+    + apply N.eqb_eq in E. subst. destruct (x =? a) eqn:E2; cbn; auto.
+    + destruct (x =? y) eqn:E2; cbn; auto. apply N.eqb_eq in E2. subst. rewrite E. auto.
+Qed.
+
+Lemma enddef_inv s reqs f :
+  Inv s reqs -> Inv (fst (step c V s (EndDef f))) (reqs ++ snd (step c V s (EndDef f))).
+Proof.
+  intros [I1 I2 I3 I4]. unfold Inv. cbn [step fst snd s_keys s_get s_fl s_def].
+  constructor; auto.
+  intros p k valf HT HK. unfold fib_replay. rewrite fold_fib_app. fold (fib_replay reqs k). rewrite (I4 p k valf HT HK).
+  rewrite (fold_flat_map_main _ p k valf (s_keys s)); auto.
+  2:{ intro q. destruct ((fst q =? f) && _); [apply distribute_own|constructor]. }
+  rewrite memN_filter_neq.
+  destruct (existsb (pfx_eqb p) (s_keys s)) eqn:E.
+  - destruct (fst p =? f) eqn:EF; cbn [andb negb].
+    + destruct (d_l (s_get s p)) eqn:EL; cbn [negb fold_left].
+      * rewrite (valf_empty p k valf); auto. destruct (memN (fst p) (s_def s)); auto.
+      * rewrite <- EL. apply chg_some_tracked; auto.
+    + cbn [fold_left]. auto.
+  - assert (Hp : ~ In p (s_keys s)).
+    { intro Hin. assert (existsb (pfx_eqb p) (s_keys s) = true); try congruence.
+      apply existsb_exists. exists p. split; auto. apply pfx_eqb_refl. }
+    rewrite (valf_empty p k valf) by auto.
+    destruct (memN (fst p) (s_def s)), (negb (fst p =? f)); auto.
+Qed.
+
+Lemma step_inv s reqs o :
+  op_ok s o ->
+  Inv s reqs -> Inv (fst (step c V s o)) (reqs ++ snd (step c V s o)).
+Proof.
+  intros HOK H. destruct o; cbn [step].
+  - apply ins_inv; auto.
+  - (* InsertLim *)
+    destruct (limit_refuses s peer p max cnt); [cbn [fst snd]; rewrite app_nil_r; auto | apply ins_inv; auto].
+  - (* StartDef *)
+    cbn [fst snd]. rewrite app_nil_r. destruct H as [I1 I2 I3 I4]. unfold Inv. cbn [s_keys s_get s_fl s_def].
+    constructor; auto. intros p k valf HT HK. rewrite (I4 p k valf HT HK).
+    cbn [memN existsb]. fold (memN (fst p) (s_def s)). destruct (fst p =? f) eqn:E; cbn [orb]; auto.
+    apply N.eqb_eq in E. rewrite (valf_empty p k valf); auto. destruct (memN (fst p) (s_def s)); auto.
+  - apply enddef_inv; auto.
   - (* Remove *)
     pose proof (do_remove_ok (s_fl s) (s_get s p) peer pid) as HO.
     pose proof (do_remove_sorted (s_fl s) (s_get s p) peer pid) as HS.
@@ -831,7 +917,7 @@ Proof.
                  snd (fst (do_remove (s_get s p) peer pid)) = None /\ snd (do_remove (s_get s p) peer pid) = None).
     { intro HH. unfold do_remove. rewrite HH. cbn. auto. }
     destruct (do_remove (s_get s p) peer pid) as [[d' ch] r].
-    cbn [fst snd] in *. unfold Inv. cbn [s_keys s_get s_fl].
+    cbn [fst snd] in *. unfold Inv. cbn [s_keys s_get s_fl s_def].
     destruct H as [I1 I2 I3 I4].
     apply upd_inv with (ks := s_keys s); auto.
     + constructor; auto.
@@ -885,26 +971,30 @@ Proof.
   intros p k valf HT. symmetry. apply (valf_empty p k valf); auto.
 Qed.
 
-Lemma run_inv ops : forall s reqs, Inv s reqs ->
+Lemma run_inv ops : forall s reqs, run_ok c V s ops -> Inv s reqs ->
   Inv (fst (run c V s ops)) (reqs ++ snd (run c V s ops)).
 Proof.
-  induction ops as [|o t IH]; intros s reqs H; cbn [run].
+  induction ops as [|o t IH]; intros s reqs HR H; cbn [run].
   - cbn. rewrite app_nil_r. auto.
-  - pose proof (step_inv s reqs o H) as H1. destruct (step c V s o) as [s1 r1].
-    cbn [fst snd] in H1. specialize (IH s1 (reqs ++ r1) H1).
+  - destruct HR as [HR1 HR2].
+    pose proof (step_inv s reqs o HR1 H) as H1. destruct (step c V s o) as [s1 r1].
+    cbn [fst snd] in H1, HR2. specialize (IH s1 (reqs ++ r1) HR2 H1).
     destruct (run c V s1 t) as [s2 r2]. cbn [fst snd] in *. rewrite app_assoc. auto.
 Qed.
 
 (* C20 (1), main table: after any history the replayed FIB entry of every
    prefix is the next-hop list of the ECMP set demanded by the Spec *)
 Theorem C20_fib_replay_eq_ecmp_of_best : forall (ops : list op) (p : prefix),
+  run_ok c Fixed st0 ops ->
   let s := fst (run c Fixed st0 ops) in
   let reqs := snd (run c Fixed st0 ops) in
-  fib_replay reqs (None, p) = fib_spec c (s_fl s) (d_l (s_get s p)).
+  fib_replay reqs (None, p) =
+  if memN (fst p) (s_def s) then [] else fib_spec c (s_fl s) (d_l (s_get s p)).
 Proof.
-  intros ops p. cbn zeta. pose proof (run_inv ops st0 [] Inv0) as H. cbn [app] in H.
+  intros ops p HR. cbn zeta. pose proof (run_inv ops st0 [] HR Inv0) as H. cbn [app] in H.
   destruct H as [I1 I2 I3 I4].
-  rewrite (I4 p (None, p) code_nhs (or_introl (conj eq_refl eq_refl)) (or_introl eq_refl)). unfold code_nhs, fib_spec.
+  rewrite (I4 p (None, p) code_nhs (or_introl (conj eq_refl eq_refl)) (or_introl eq_refl)).
+  destruct (memN (fst p) (s_def (fst (run c V st0 ops)))); auto. unfold code_nhs, fib_spec.
   change (selectable (d_l (s_get (fst (run c V st0 ops)) p))) with (eligs (d_l (s_get (fst (run c V st0 ops)) p))).
   rewrite ecmp_code_spec; auto. apply ssorted_filter. auto.
 Qed.
@@ -921,23 +1011,26 @@ Theorem C20_vrf_fib_replay_eq_ecmp_of_best_outside_known :
   forall (ops : list op) (p : prefix) (id : N) (imp : list N),
   is_vpn p = true ->
   NoDup (map fst (c_vrfs c)) -> In (id, imp) (c_vrfs c) -> id <> 0 ->
+  run_ok c Fixed st0 ops ->
   let s := fst (run c Fixed st0 ops) in
   let reqs := snd (run c Fixed st0 ops) in
   let l := d_l (s_get s p) in
   ~ Known_C20_3 p (s_keys s) ->
-  fib_replay reqs (Some id, local_pfx p) = vrf_spec c (s_fl s) imp l (hd_error (selectable l)) /\
+  fib_replay reqs (Some id, local_pfx p) =
+    (if memN (fst p) (s_def s) then [] else vrf_spec c (s_fl s) imp l (hd_error (selectable l))) /\
   (forall b, hd_error (selectable l) = Some b -> is_best c (s_fl s) l b).
 Proof.
-  intros ops p id imp Hv ND HI Hid. cbn zeta. intro HK.
+  intros ops p id imp Hv ND HI Hid HR. cbn zeta. intro HK.
   assert (HU : uniq p (s_keys (fst (run c V st0 ops)))).
   { intros q Hq Hvq HL. destruct (pfx_eqb q p) eqn:E.
     - apply pfx_eqb_eq; auto.
     - exfalso. apply HK. intro HU. specialize (HU q Hq Hvq HL). subst. rewrite pfx_eqb_refl in E. discriminate. }
-  pose proof (run_inv ops st0 [] Inv0) as H. cbn [app] in H.
+  pose proof (run_inv ops st0 [] HR Inv0) as H. cbn [app] in H.
   destruct H as [I1 I2 I3 I4]. split.
   - rewrite (I4 p (Some id, local_pfx p) (fun fl d => code_vrf fl imp d)).
     2:{ right. split; auto. split; auto. exists id, imp. auto. }
     2:{ right. auto. }
+    destruct (memN (fst p) (s_def (fst (run c V st0 ops)))); auto.
     unfold code_vrf, vrf_spec, fib_spec, code_nhs.
     change (selectable (d_l (s_get (fst (run c V st0 ops)) p)))
       with (eligs (d_l (s_get (fst (run c V st0 ops)) p))).
@@ -993,14 +1086,7 @@ Qed.
 
 Definition InvF (s : st) : Prop := forall p, Forall (inv_ok (s_inv s)) (d_l (s_get s p)).
 
-Lemma memN_filter_neq a x l : memN x (filter (fun y => negb (y =? a)) l) = negb (x =? a) && memN x l.
-Proof.
-  unfold memN. induction l as [|y l IH]; cbn [filter existsb].
-  - rewrite andb_false_r. auto.
-  - destruct (y =? a) eqn:E; cbn [negb existsb]; rewrite IH.
-    + apply N.eqb_eq in E. subst. destruct (x =? a) eqn:E2; cbn; auto.
-    + destruct (x =? y) eqn:E2; cbn; auto. apply N.eqb_eq in E2. subst. rewrite E. auto.
-Qed.
+
 
 Definition inv_after (inv : list N) (a : N) (reachable : bool) : list N :=
   if reachable then filter (fun x => negb (x =? a)) inv
@@ -1075,13 +1161,22 @@ Proof.
   apply Forall_sub with (l := d_l (s_get s p)); [|apply H]. intros x Hx. apply isort_in in Hx. auto.
 Qed.
 
-Lemma step_invF s o : InvF s -> InvF (fst (step c V s o)).
+Lemma ins_invF s peer sess p pid nh tok : InvF s -> InvF (fst (step_ins c V s peer sess p pid nh tok)).
 Proof.
-  intro H. destruct o; cbn [step].
-  - destruct (apply_import c (s_pol s) peer nh) as [filtered nh'].
+  intro H. unfold step_ins.
+    destruct (apply_import c (s_pol s) peer nh) as [filtered nh'].
     pose proof (do_insert_invok (s_fl s) (s_get s p) (peer, sess) pid nh' tok (attr_of c tok) filtered (s_inv s) (H p)) as HI.
     destruct (do_insert c (s_fl s) (s_get s p) (peer, sess) pid nh' tok (attr_of c tok) filtered _) as [d' ch].
     cbn [fst] in *. intro q. cbn [s_get s_inv]. unfold upd. destruct (pfx_eqb q p); auto.
+Qed.
+
+Lemma step_invF s o : InvF s -> InvF (fst (step c V s o)).
+Proof.
+  intro H. destruct o; cbn [step].
+  - apply ins_invF; auto.
+  - destruct (limit_refuses s peer p max cnt); [exact H | apply ins_invF; auto].
+  - exact H.
+  - exact H.
   - pose proof (do_remove_in (s_get s p) peer pid) as HI.
     destruct (do_remove (s_get s p) peer pid) as [[d' ch] r]. cbn [fst] in *.
     intro q. cbn [s_get s_inv]. unfold upd. destruct (pfx_eqb q p); auto.
@@ -1111,9 +1206,12 @@ Lemma step_sinv s o a :
   | _ => memN a (s_inv s)
   end.
 Proof.
+  assert (HI : forall peer sess p pid nh tok, s_inv (fst (step_ins c V s peer sess p pid nh tok)) = s_inv s).
+  { intros. unfold step_ins. destruct (apply_import c (s_pol s) peer nh) as [filtered nh'].
+    destruct (do_insert c _ _ _ _ _ _ _ _ _) as [d' ch]. reflexivity. }
   destruct o; cbn [step]; try reflexivity.
-  - destruct (apply_import c (s_pol s) peer nh) as [filtered nh'].
-    destruct (do_insert c _ _ _ _ _ _ _ _ _) as [d' ch]. reflexivity.
+  - rewrite HI. reflexivity.
+  - destruct (limit_refuses s peer p max cnt); [reflexivity | rewrite HI; reflexivity].
   - destruct (do_remove (s_get s p) peer pid) as [[d' ch] r]. reflexivity.
   - unfold sweep. cbn [fst s_inv]. apply (memN_inv_after (s_inv s) a0 reachable a).
 Qed.
@@ -1219,6 +1317,13 @@ Proof.
 Qed.
 
 (* a per-destination step keeps the count in step *)
+Lemma ref_fold_gate a df p rq n : ref_fold a (gate df p rq) n = ref_fold a rq n.
+Proof.
+  unfold gate. destruct (memN (fst p) df); auto. revert n.
+  induction rq as [|r rq IH]; intro n; cbn [filter]; auto.
+  destruct r; cbn [is_apply negb]; unfold ref_fold in *; cbn [fold_left]; rewrite IH; auto.
+Qed.
+
 Definition ref_ok (a : N) (d : dest) (res : dest * list req) : Prop :=
   forall n, cnt a (d_l d) <= n ->
     ref_fold a (snd res) n = n - cnt a (d_l d) + cnt a (d_l (fst res)).
@@ -1441,7 +1546,11 @@ Proof.
   intros [R1 R2 R3] HR HE. unfold sweep. constructor; cbn [fst snd s_keys s_get]; auto.
   intro a. unfold ref_replay. rewrite fold_left_app. fold (ref_replay reqs a). rewrite R3.
   rewrite !paths_using_total. cbn [s_get s_keys].
-  pose proof (sweep_ref a (s_get s) f (s_keys s) (HR a) 0) as H. rewrite !N.add_0_l in H. exact H.
+  pose proof (sweep_ref a (s_get s) (fun q d => (fst (f q d), gate (s_def s) q (snd (f q d)))) (s_keys s)) as H.
+  cbn [fst snd] in H. rewrite <- (N.add_0_l (total a (s_get s) (s_keys s))).
+  change (fold_left (ref_step a)) with (ref_fold a). rewrite H.
+  - rewrite N.add_0_l. reflexivity.
+  - intros q n Hn. cbn [fst snd]. rewrite ref_fold_gate. apply HR; auto.
 Qed.
 
 Lemma in_dec_keys (p0 : prefix) (ks : list prefix) : In p0 ks \/ ~ In p0 ks.
@@ -1532,11 +1641,10 @@ Proof.
   - intros q Hq. apply llgr_empty; auto.
 Qed.
 
-Lemma step_invR s reqs o :
-  wf_op o = true -> InvR s reqs -> InvR (fst (step c V s o)) (reqs ++ snd (step c V s o)).
+Lemma ins_invR s reqs peer sess p pid nh tok :
+  InvR s reqs -> InvR (fst (step_ins c V s peer sess p pid nh tok)) (reqs ++ snd (step_ins c V s peer sess p pid nh tok)).
 Proof.
-  intros HW H. destruct o; cbn [step wf_op] in *.
-  - (* Insert *)
+  intro H. unfold step_ins.
     destruct (apply_import c (s_pol s) peer nh) as [filtered nh'].
     pose proof (fun a => proj2 (do_insert_ref (s_fl s) (s_get s p) peer sess pid nh' tok (attr_of c tok) filtered
                   (match oaddr nh' with Some a => memN a (s_inv s) | None => false end) a)) as HR.
@@ -1547,13 +1655,29 @@ Proof.
     + intros q Hq. unfold upd. destruct (pfx_eqb q p) eqn:E.
       * apply pfx_eqb_eq in E. subst. exfalso. apply Hq. apply add_key_in. auto.
       * apply R2. intro. apply Hq. apply add_key_in. auto.
-    + intro a. unfold ref_replay. rewrite !fold_left_app. fold (ref_replay reqs a). rewrite R3.
-      change (fold_left (ref_step a)) with (ref_fold a).
+    + intro a. unfold ref_replay. rewrite fold_left_app. fold (ref_replay reqs a). rewrite R3.
+      change (fold_left (ref_step a)) with (ref_fold a). rewrite ref_fold_gate, !ref_fold_app.
       rewrite (apply_only_ref a (distribute_opt c V (s_fl s) p ch)) by apply distribute_opt_apply_only.
       rewrite !paths_using_total. cbn [s_keys s_get].
       pose proof (cnt_le_total a (s_get s) (s_keys s) p R2) as HL.
       specialize (HR a _ HL). cbn [fst snd] in HR. rewrite HR.
       pose proof (total_add_key a (s_get s) p d' (s_keys s) R1 (R2 p)) as HT. lia.
+Qed.
+
+Lemma step_invR s reqs o :
+  wf_op o = true -> InvR s reqs -> InvR (fst (step c V s o)) (reqs ++ snd (step c V s o)).
+Proof.
+  intros HW H. destruct o; cbn [step wf_op] in *.
+  - apply ins_invR; auto.
+  - destruct (limit_refuses s peer p max _); [cbn [fst snd]; rewrite app_nil_r; auto | apply ins_invR; auto].
+  - cbn [fst snd]. rewrite app_nil_r. destruct H as [R1 R2 R3]. constructor; auto.
+  - destruct H as [R1 R2 R3]. constructor; cbn [fst snd s_keys s_get]; auto.
+    intro a. unfold ref_replay. rewrite fold_left_app. fold (ref_replay reqs a). rewrite R3.
+    change (fold_left (ref_step a)) with (ref_fold a). rewrite apply_only_ref; auto.
+    apply Forall_forall. intros r Hr. apply in_flat_map in Hr. destruct Hr as [q [_ Hr]].
+    destruct ((fst q =? f) && _); [|destruct Hr].
+    pose proof (distribute_opt_apply_only (s_fl s) q (Some {| ch_bc := true; ch_ac := true; ch_cur := eligs (d_l (s_get s q)) |})) as HA.
+    unfold apply_only in HA. rewrite Forall_forall in HA. apply HA. exact Hr.
   - (* Remove *)
     pose proof (fun a => do_remove_ref (s_get s p) peer pid a) as HR.
     assert (HE : d_l (s_get s p) = [] -> d_l (fst (fst (do_remove (s_get s p) peer pid))) = []).
@@ -1562,8 +1686,8 @@ Proof.
     destruct H as [R1 R2 R3]. constructor; cbn [s_keys s_get]; auto.
     + intros q Hq. unfold upd. destruct (pfx_eqb q p) eqn:E; auto.
       apply pfx_eqb_eq in E. subst. auto.
-    + intro a. unfold ref_replay. rewrite !fold_left_app. fold (ref_replay reqs a). rewrite R3.
-      change (fold_left (ref_step a)) with (ref_fold a).
+    + intro a. unfold ref_replay. rewrite fold_left_app. fold (ref_replay reqs a). rewrite R3.
+      change (fold_left (ref_step a)) with (ref_fold a). rewrite ref_fold_gate, !ref_fold_app.
       rewrite (apply_only_ref a (distribute_opt c V (s_fl s) p ch)) by apply distribute_opt_apply_only.
       rewrite !paths_using_total. cbn [s_keys s_get].
       pose proof (cnt_le_total a (s_get s) (s_keys s) p R2) as HL.
@@ -1709,16 +1833,18 @@ Definition ex_ops_rd : list op :=
 Lemma C20_vrf_fib_replay_eq_ecmp_of_best_refuted :
   exists (c : cfg) (ops : list op) (p : prefix) (id : N) (imp : list N),
     is_vpn p = true /\ NoDup (map fst (c_vrfs c)) /\ In (id, imp) (c_vrfs c) /\ id <> 0 /\
+    run_ok c Fixed st0 ops /\
     let s := fst (run c Fixed st0 ops) in
     let l := d_l (s_get s p) in
     Known_C20_3 p (s_keys s) /\
     fib_replay (snd (run c Fixed st0 ops)) (Some id, local_pfx p) <>
-    vrf_spec c (s_fl s) imp l (hd_error (selectable l)).
+    (if memN (fst p) (s_def s) then [] else vrf_spec c (s_fl s) imp l (hd_error (selectable l))).
 Proof.
-  exists ex_cfg, ex_ops_rd, (1, 1), 5, [1]. split; [reflexivity|]. split; [|split; [|split; [|split]]].
+  exists ex_cfg, ex_ops_rd, (1, 1), 5, [1]. split; [reflexivity|]. split; [|split; [|split; [|split; [|split]]]].
   - cbn. repeat constructor; cbn; intuition discriminate.
   - cbn. auto.
   - discriminate.
+  - cbn [ex_ops_rd run_ok op_ok]. tauto.
   - intro HU. specialize (HU (1, 11)). cbn in HU.
     assert (HH : (1, 11) = (1, 1)) by (apply HU; auto). discriminate HH.
   - vm_compute. discriminate.
@@ -1778,3 +1904,29 @@ Proof. vm_compute. auto. Qed.
 Example ex_vrf_hyps : NoDup (map fst (c_vrfs ex_cfg)) /\ In (5, [1]) (c_vrfs ex_cfg).
 Proof. split. cbn. repeat constructor; cbn; intuition discriminate. cbn. auto. Qed.
 
+(* deferral: the hypothesis [run_ok] is met by histories that start the deferral of a
+   family on an empty table; nothing is installed while it lasts, everything at its end *)
+Definition ex_ops_def : list op :=
+  [StartDef 0; Insert 1 0 (0, 1) 0 (Some (NhV4 1)) 0; Insert 2 0 (0, 1) 0 (Some (NhV4 2)) 2;
+   Insert 1 0 (3, 1) 0 (Some (NhV6 101)) 0].
+Example ex_def_run_ok : run_ok ex_cfg Fixed st0 (ex_ops_def ++ [EndDef 0]) /\ run_ok ex_cfg Fixed st0 ex_ops_long.
+Proof.
+  split.
+  - split; [intros p _; reflexivity|]. cbn [ex_ops_def app run_ok op_ok]. tauto.
+  - cbn [ex_ops_long run_ok op_ok]. tauto.
+Qed.
+Example ex_def_values :
+  let r1 := run ex_cfg Fixed st0 ex_ops_def in
+  let r2 := run ex_cfg Fixed st0 (ex_ops_def ++ [EndDef 0]) in
+  s_def (fst r1) = [0] /\ fib_replay (snd r1) (None, (0, 1)) = [] /\ fib_replay (snd r1) (None, (3, 1)) = [101] /\
+  ref_replay (snd r1) 1 = 1 /\
+  s_def (fst r2) = [] /\ fib_replay (snd r2) (None, (0, 1)) = [1; 2].
+Proof. vm_compute. repeat split; reflexivity. Qed.
+(* the prefix-limit test: refused for a new prefix at the limit, accepted for a known one *)
+Example ex_limit_values :
+  let ops := [InsertLim 1 0 (0, 1) 0 (Some (NhV4 1)) 0 1 1; InsertLim 2 0 (0, 1) 0 (Some (NhV4 2)) 0 1 0;
+              InsertLim 2 0 (0, 1) 0 (Some (NhV4 3)) 0 1 1] in
+  let r := run ex_cfg Fixed st0 ops in
+  length (d_l (s_get (fst r) (0, 1))) = 1%nat /\ fib_replay (snd r) (None, (0, 1)) = [3] /\
+  ref_replay (snd r) 1 = 0 /\ ref_replay (snd r) 2 = 0 /\ ref_replay (snd r) 3 = 1.
+Proof. vm_compute. repeat split; reflexivity. Qed.
